@@ -136,6 +136,39 @@ pub fn run(ctx: &RunCtx) -> i32 {
             shared.merge(r);
         });
     }
+    // offset family: integrity / fingerprint tails (valid values) behind a filler at every body offset of
+    // menu::offset_points (scratch buffers, 16-bit offsets and page-sized shortcuts live here), each with four cheap
+    // faults: truncated by 1 / 4 / 8 bytes, last byte flipped, header length +4 / -4
+    {
+        use crate::refs::codec::{ref_encode, L};
+        let raw = seeds::key().ref_bytes();
+        let xs: Vec<Vec<L>> = vec![vec![]];
+        let tails = vec![vec![L::Fp], vec![L::Mi], vec![L::Sha, L::Fp], vec![L::Mi, L::Sha, L::Fp], vec![L::Fp, L::Software("after".into())]];
+        let msgs = crate::menu::offset_msgs(thorough, &xs, &tails, [0x73; 12]);
+        msgs.par_chunks(16).for_each(|ch| {
+            let decs = decoders(&key);
+            let mut r = Report::new();
+            for lm in ch {
+                let b = ref_encode(lm, Some(&raw));
+                probe_decoders(&b, "offset-family", &decs, &mut r);
+                for cut in [1usize, 4, 8] {
+                    probe_decoders(&b[..b.len() - cut], "offset-family-truncated", &decs, &mut r);
+                }
+                let mut m = b.clone();
+                let n = m.len();
+                m[n - 1] ^= 0x01;
+                probe_decoders(&m, "offset-family-last-byte", &decs, &mut r);
+                for d in [4i32, -4] {
+                    let mut m = b.clone();
+                    let l = (u16::from_be_bytes([m[2], m[3]]) as i32 + d).clamp(0, 65535) as u16;
+                    m[2..4].copy_from_slice(&l.to_be_bytes());
+                    probe_decoders(&m, "offset-family-header-length", &decs, &mut r);
+                }
+            }
+            r.sym("offset-family");
+            shared.merge(r);
+        });
+    }
     let mut rep = shared.into_inner();
     // client part (E3): added by e3::c03_client when available
     crate::e3::c03_client::run(ctx, &mut rep);
@@ -147,9 +180,9 @@ pub fn run(ctx: &RunCtx) -> i32 {
         rep,
         Finish {
             level: "fault_enumeration",
-            rule: format!("{} seeds (reference-encoded single / pair messages over the menus x tails, RFC 5769 vectors, unknown-attribute messages); every single fault of the alphabet {{bit flip, byte := 00/FF/7F/80/01/02, truncation to every length, 8 header-length edits, 12 edits of every attribute length and 7 of every nested length, 14 UTF-8 / quoting injections at every offset of every string value, delete / duplicate / move of every attribute}} at every position{}; each mutant decoded under 16 option combinations + no context (size relation and independence of trailing bytes checked on success), passed to get_input_text x3, and (when the 20 header bytes or the length changed; the reassembler reads nothing else) to the reassembler under every 1-cut (<=28 bytes: 2-cut) chunking x 3 buffers (20, len-1, len) against the reference splitter; valid header + every 1-byte and {} 2-byte bodies; client part: see coverage.client. Non-trivial = distinct byte strings that at least one configuration decoded successfully and that satisfied the relations (plus distinct chunkings whose per-call results matched the splitter)", n_seeds, if thorough { " and all pairs of byte substitutions on seeds <=64 bytes" } else { "" }, if thorough { "every" } else { "4096" }),
+            rule: format!("{} seeds (reference-encoded single / pair messages over the menus x tails, RFC 5769 vectors, unknown-attribute messages); every single fault of the alphabet {{bit flip, byte := 00/FF/7F/80/01/02, truncation to every length, 8 header-length edits, 12 edits of every attribute length and 7 of every nested length, 19 UTF-8 / quoting / normalisation injections at every offset of every string value, delete / duplicate / move of every attribute}} at every position{}; each mutant decoded under 16 option combinations + no context (size relation and independence of trailing bytes checked on success), passed to get_input_text x3, and (when the 20 header bytes or the length changed; the reassembler reads nothing else) to the reassembler under every 1-cut (<=28 bytes: 2-cut) chunking x 3 buffers (20, len-1, len) against the reference splitter; valid header + every 1-byte and {} 2-byte bodies; the offset family (5 integrity / fingerprint tails with valid values behind a filler at every 4-aligned body offset 0..=4200 (thorough 16,400), around multiples of 4096 (1024), every offset 65,300..=65,532, each also truncated by 1 / 4 / 8 bytes, with the last byte flipped and the header length +-4); client part: see coverage.client. Non-trivial = distinct byte strings that at least one configuration decoded successfully and that satisfied the relations (plus distinct chunkings whose per-call results matched the splitter)", n_seeds, if thorough { " and all pairs of byte substitutions on seeds <=64 bytes" } else { "" }, if thorough { "every" } else { "4096" }),
             assumptions: vec!["the statement's 'random bytes' are replaced by these deterministic families".into()],
-            required_symbols: vec!["bit-flip", "byte-substitution", "truncation", "header-length", "attribute-length", "nested-length", "string-injection", "attribute-delete", "attribute-duplicate", "attribute-move", "tiny-bodies", "client-deliveries", "long-term/retry-after-401-cookie", "short-term/learned-SHA256"],
+            required_symbols: vec!["bit-flip", "byte-substitution", "truncation", "header-length", "attribute-length", "nested-length", "string-injection", "attribute-delete", "attribute-duplicate", "attribute-move", "tiny-bodies", "offset-family", "client-deliveries", "client-long-replies", "long-term/retry-after-401-cookie", "short-term/learned-SHA256"],
             min_outcomes: 2,
             exhaustive: true,
             bounds: json!({"seeds": n_seeds, "faults_per_mutant": if thorough {2} else {1}}),
